@@ -110,6 +110,8 @@ def _quantile_transform(u, marg, rs):
         return np.exp(0.5 * stats.norm.ppf(u))
     if marg == 'constant':
         return np.full(len(u), 2.5)
+    if marg == 'constant0':
+        return np.zeros(len(u))
     raise ValueError(marg)
 
 
@@ -168,8 +170,12 @@ def gen_table(spec):
     U = stats.norm.cdf(Z)
     cols = {}
     names = spec.get('names') or ['c%d' % i for i in range(d)]
+    affine = spec.get('affine')
     for j, marg in enumerate(margs):
-        cols[names[j]] = _quantile_transform(U[:, j], marg, rs)
+        col = _quantile_transform(U[:, j], marg, rs)
+        if affine:
+            col = col * affine[j][1] + affine[j][0]
+        cols[names[j]] = col
     df = pd.DataFrame(cols)
     if pattern == 'dup' and d >= 2:
         df[names[-1]] = df[names[0]].to_numpy() * 2.0 + 1.0
@@ -283,9 +289,13 @@ def fit_model(model, spec, data, poison=None):
 
 def rand_uni_dataspec(rng, n_lo=30, n_hi=80, allow_constant=True):
     gens = UNI_GENS if allow_constant else UNI_GENS[:-1]
-    return {'kind': 'uni', 'gen': rng.choice(gens), 'n': rng.randint(n_lo, n_hi),
+    spec = {'kind': 'uni', 'gen': rng.choice(gens), 'n': rng.randint(n_lo, n_hi),
             'seed': rng.randrange(2**31), 'loc': round(rng.uniform(-5, 5), 3),
             'scale': round(10 ** rng.uniform(-1, 1.5), 4)}
+    if spec['gen'] == 'constant':
+        # the value 0 is the interesting constant (falsy): make it frequent
+        spec['loc'] = rng.choice([0.0, 0.0, 2.5, -1.175, spec['loc']])
+    return spec
 
 
 def rand_table_spec(rng, d_lo=2, d_hi=4, n_lo=40, n_hi=80, margs=None, constant_p=0.15,
@@ -294,8 +304,9 @@ def rand_table_spec(rng, d_lo=2, d_hi=4, n_lo=40, n_hi=80, margs=None, constant_
     pool = margs or ['normal', 'uniform', 'gamma', 'beta', 'expshift', 'bimodal', 'lognormal']
     ms = []
     for _ in range(d):
-        ms.append('constant' if rng.random() < constant_p else rng.choice(pool))
-    if all(m == 'constant' for m in ms):
+        ms.append(rng.choice(['constant', 'constant0']) if rng.random() < constant_p
+                  else rng.choice(pool))
+    if all(m.startswith('constant') for m in ms):
         ms[0] = 'normal'
     return {'kind': 'table', 'n': rng.randint(n_lo, n_hi), 'seed': rng.randrange(2**31),
             'margs': ms, 'pattern': rng.choice(list(patterns))}
